@@ -325,7 +325,8 @@ SCHED_RULE = ("systems: task sets (2-3 tasks, thorough 2-4; periodic / sporadic+
 SCHED_ASSUME = ["scheduler semantics of spec/Sched.tla (discrete time, work-conserving, policy re-evaluated at preemption points)",
                 "tasks without a claim (analysis returned Err) do not age and hold at most one pending job",
                 "LP jobs execute every segment (length 1..bound); execution times 1..C otherwise",
-                "magnitudes: periods <= 10, bounds <= divergence limit 40 (60)"]
+                "magnitudes: periods <= 10, bounds <= 22 (45), total backlog <= 5 (7) jobs, estimated state count per system <= 1.5e6 (6e6); "
+                "systems beyond these budgets are not generated"]
 
 
 def _nsys(run, q, t):
@@ -380,7 +381,7 @@ def c18(run):
         keys = ["%d %d" % (r["id"], i + 1) for i, t in enumerate(r["tasks"]) if t["R"] >= 0]
         return [keys] if r["policy"] == "fifo" else [[k] for k in keys]
     world_stage(run, "attained", "systems", "MCSched.tla", "MCSchedWitness.cfg", witness=alts,
-                extra=["--families", "fp,fifo", "--exact", "1", "--nsys", _nsys(run, 60, 500)])
+                extra=["--families", "fp,fifo", "--exact", "1", "--nsys", _nsys(run, 260, 1500)])
 
 
 @check("C19")
